@@ -1019,6 +1019,15 @@ func (d *Data) Initialize() {
 		} else {
 			dvid.Criticalf("Can't load JSON schema for neuronjson %q: %v\n", d.DataName(), err)
 		}
+		// The validation schema document is cached like the other two kinds, whether or not the leaf is
+		// an open head: the cache answers for whatever version becomes the head later.
+		if value, err := d.loadMetadata(ctx, JSONSchema); err == nil {
+			if value != nil {
+				d.metadata[JSONSchema] = value
+			}
+		} else {
+			dvid.Criticalf("Can't load JSON schema document for neuronjson %q: %v\n", d.DataName(), err)
+		}
 		if value, err := d.loadMetadata(ctx, NeuSchema); err == nil {
 			dvid.Infof("Metadata load of neutu/neu3 JSON schema for %s: %d bytes\n", leafUUID[:6], len(value))
 			if value != nil {
